@@ -47,7 +47,7 @@ func TestVerifGroupReport(t *testing.T) {
 			pairs := [][]int{}
 			for j := 1 + rng.Intn(3); j > 0 && op != "stop"; j-- {
 				s, r := rng.Intn(nchan+2)-1, rng.Intn(nchan+2)-1 // -1 .. nchan: out of range at both ends
-				if rng.Intn(3) > 0 {                              // mostly in range, so that requests MIX valid and invalid pairs
+				if rng.Intn(3) > 0 {                             // mostly in range, so that requests MIX valid and invalid pairs
 					s, r = rng.Intn(nchan), rng.Intn(nchan)
 				}
 				conns[s] = append(conns[s], r)
@@ -86,5 +86,57 @@ func TestVerifGroupReport(t *testing.T) {
 		}
 		rig.stop()
 		close(rig.stopHB)
+	}
+}
+
+// TestVerifCoupling: error/feedback coupling on a Lancero source object (the only source that implements it), mixed with
+// group-trigger edits and restarts of the same object (PrepareRun builds a fresh broker).  After every request the
+// set the broker uses is logged; GroupReportTrace.tla compares it with the set-theoretic result.
+func TestVerifCoupling(t *testing.T) {
+	rng := vRng()
+	for scen := 1; scen <= vNRandom; scen++ {
+		ls := new(LanceroSource)
+		ls.name = "Lancero"
+		dev := &LanceroDevice{devnum: 0, ncols: 1 + rng.Intn(2), nrows: 1 + rng.Intn(2)}
+		ls.devices = map[int]*LanceroDevice{0: dev}
+		ls.active = []*LanceroDevice{dev}
+		ls.nchan = 2 * dev.ncols * dev.nrows
+		ls.firstRowChanNum = 1
+		ls.sampleRate = 10000
+		ls.samplePeriod = 100000
+		if err := ls.PrepareChannels(); err != nil {
+			t.Fatal(err)
+		}
+		if err := ls.PrepareRun(10, 40); err != nil {
+			t.Fatal(err)
+		}
+		n := ls.nchan
+		vEmit(vmap{"ev": "GBegin", "scen": 100000 + scen, "nchan": n})
+		for k := 4 + rng.Intn(8); k > 0; k-- {
+			op := []string{"fb2err", "fb2err", "err2fb", "none", "add", "del", "restart", "fb2err"}[rng.Intn(8)]
+			pairs := [][]int{}
+			var err error
+			switch op {
+			case "fb2err":
+				err = ls.SetCoupling(FBToErr)
+			case "err2fb":
+				err = ls.SetCoupling(ErrToFB)
+			case "none":
+				err = ls.SetCoupling(NoCoupling)
+			case "restart":
+				err = ls.PrepareRun(10, 40)
+			default:
+				s, r := rng.Intn(n), rng.Intn(n)
+				pairs = append(pairs, []int{s, r})
+				err = ls.ChangeGroupTrigger(op == "add", &GroupTriggerState{Connections: map[int][]int{s: {r}}})
+			}
+			gs := ls.ComputeGroupTriggerState()
+			actual := grPairs(&gs)
+			e := ""
+			if err != nil {
+				e = err.Error()
+			}
+			vEmit(vmap{"ev": "GReq", "scen": 100000 + scen, "op": op, "pairs": pairs, "ok": err == nil, "err": e, "nreports": 0, "reported": actual, "actual": actual})
+		}
 	}
 }
